@@ -197,6 +197,14 @@ def analyse(fn):
         empty = roles.expect("T[E, L] == S", defs, s.node.lineno, T=T, E=el2, L=L or "x", S=str(sent))
         filled = roles.expect("T[E, L] != S", defs, s.node.lineno, T=T, E=el2, L=L or "x", S=str(sent))
         ok = L is not None and bool(s.guards) and s.guards[-1] in ((empty, True), (filled, False))
+        # every element that received a dof in this pass (the returned support, extension elements included) must be
+        # treated: an enclosing test may only be that flag, never the support that was passed in
+        flag = roles.expect("F[E]", defs, s.node.lineno, F=SUPF, E=el2)
+        outer = [g for g in s.guards[:-1]]
+        ok_outer = all(g == (flag, True) for g in outer)
+        if True:
+            out.append(("second pass: aliasing covers every element of the returned support", ok_outer,
+                        "the aliasing of empty slots is skipped unless `%s`: elements added to the support in the first pass keep local2global entries that point at dof 0 of other elements (rows written concurrently, zero multiplier)" % " and ".join(g[0][:50] for g in outer if g != (flag, True)), s.node.lineno))
         out.append(("second pass: aliasing store `%s`" % unparse(s.node)[:50], ok,
                     "`%s` overwrites a slot of the element's dof map without testing that the slot carries no vertex (innermost guard %s)" % (unparse(s.node)[:60], s.guards[-1] if s.guards else None), s.node.lineno))
     out.append(("second pass: empty slots are aliased", len(al) >= 1, "no store aliases the empty slots of an element to one of its dofs", second.lineno))
